@@ -9,8 +9,8 @@ Sub-checks
     find        find_<col>(condition) and one_or_none(condition) against the rows the reference model selects
     small_enum  thorough only: every 1-column table of 0-4 rows over a 7-value pool x every condition of a fixed list
 
-The oracle is a list-of-records filter written with plain python (`_sat`, `_model_rows`); it never calls
-inc / exc / _row_check.
+The oracle is a list-of-records filter written with plain python (`_sat` per cell, `selected(i)` per row); it never
+calls inc / exc / _row_check / is_nan.
 """
 import itertools
 import re
@@ -51,7 +51,6 @@ def check(cond, msg, *fmt):
 
 
 # ----------------------------------------------------------------------------- reference model
-
 
 def _is_nan(x):
     return isinstance(x, float) and x != x
@@ -94,13 +93,9 @@ def _cond_value(cond, env):
     raise ValueError('unknown condition %r' % (cond,))
 
 
-def _is_true_nan(x):
-    return _is_nan(x)
-
-
 _CATALOGUE = {
     'is_none': (1, lambda x: x is None),
-    'is_nan': (1, lambda x: _is_true_nan(x)),
+    'is_nan': (1, lambda x: _is_nan(x)),
     'is_str': (1, lambda x: isinstance(x, str)),
     'num_pos': (1, lambda x: isinstance(x, (int, float)) and x > 0),
     'true': (1, lambda x: True),
@@ -566,12 +561,12 @@ SUBS = [
         floor=0.5,
         class_floors={'both_nonempty': 0.2, 'all': 0.03, 'nothing': 0.08, 'cond=nan': 0.05, 'cond=none': 0.05, 'cond=regex': 0.05, 'cond=list': 0.1,
                       'cond=val': 0.1, 'nconds=2': 0.1, 'form=none': 0.03, 'interleaved': 0.05, 'n=0': 0.01, 'nan_cond_on_nan_column': 0.02}),
-    Sub('predicate', _predicate_case, run_partition, quick=2000, thorough=20000,
+    Sub('predicate', _predicate_case, run_partition, quick=2000, thorough=15000,
         rule='same tables; ONE callable over 1-3 named columns: a catalogue of total predicates (is None, is NaN, is str, > 0, str(a) < str(b), a == b, '
              'constant True / False) or an arbitrary truth table on the rows. oracle: the same python predicate applied to the plain records. '
              'non-trivial = at least one row and (both parts non-empty or all / nothing selected)',
         floor=0.5, class_floors={'both_nonempty': 0.2, 'all': 0.03, 'nothing': 0.05, 'fn=table': 0.2, 'nargs=2': 0.1}),
-    Sub('find', _find_case, run_find, quick=2500, thorough=25000,
+    Sub('find', _find_case, run_find, quick=2500, thorough=15000,
         rule='same tables and conditions (filters or one callable) plus a column: find_<col>(condition) must return the one value held by the selected rows and '
              'raise ValueError when no row or two different values are selected; one_or_none(condition[, exc=][, find=]) must give None / the row / ValueError '
              'for 0 / 1 / several selected rows. non-trivial = the selection is not a single row',
